@@ -9,7 +9,10 @@ package main
 //       enum values, swapped series kinds, missing / duplicated / foreign messages, out-of-file
 //       bsdiff seeks and adds - including adds that reach exactly / run past / start exactly at
 //       the end of the old file, over old files whose sizes sit on and around the 32 KiB chunks of
-//       the applier's read cache -, fewer / more block hashes, other well-formed containers),
+//       the applier's read cache -, fewer / more block hashes, other well-formed containers;
+//       the header frame in front of the containers: no / unreadable compression settings, unknown
+//       or swapped algorithm, arbitrary quality, unknown fields, foreign message, and the magic
+//       number in front of it: c10_hdr.go),
 // re-encoded through wire.WriteContext under {none, gzip, brotli} framing and fed, in a child
 // process, to patcher.New+Resume (fresh and overlay bowl), rediff.NewContext+Optimize,
 // pwr.ReadSignature+ComputeHashInfo(+ValidatingPool) and overlay Patch.
@@ -266,6 +269,9 @@ type c10Mut struct {
 	// Always: a boundary mutation that is planned on every run for every base stream it applies
 	// to (not subject to the per-base budget): the bsdiff adds aimed at the end of the old file
 	Always bool
+	// Late: a planned-on-every-run class added in a later round: framing and feeders are drawn from
+	// a stream of their own (c10LateRng), so that the draws of all older classes stay what they were
+	Late bool
 }
 
 const (
@@ -292,7 +298,9 @@ func c10Uniq(xs []int64) []int64 {
 func c10PatchMuts(s *c10Stream) []c10Mut {
 	var out []c10Mut
 	nT, nS := int64(len(s.TC.Files)), int64(len(s.SC.Files))
-	add := func(class, desc string, f func(s *c10Stream)) { out = append(out, c10Mut{class, desc, f, false}) }
+	add := func(class, desc string, f func(s *c10Stream)) {
+		out = append(out, c10Mut{class, desc, f, false, false})
+	}
 	maxTsize := int64(0)
 	for _, f := range s.TC.Files {
 		if f.Size > maxTsize {
@@ -304,7 +312,9 @@ func c10PatchMuts(s *c10Stream) []c10Mut {
 	// of the old file can be aimed at)
 	bsOff, bsOld := int64(0), int64(0)
 	bsKnown, bsFirst := false, false // inside a series whose old file is known; no control of it seen yet
-	always := func(class, desc string, f func(s *c10Stream)) { out = append(out, c10Mut{class, desc, f, true}) }
+	always := func(class, desc string, f func(s *c10Stream)) { out = append(out, c10Mut{class, desc, f, true, false}) }
+	alwaysLate := func(class, desc string, f func(s *c10Stream)) { out = append(out, c10Mut{class, desc, f, true, true}) }
+	hugeFirst, hugeLater := false, false // a first / a later BLOCK_RANGE op of a series got its huge values
 	insertAt := func(s *c10Stream, at int, m proto.Message) {
 		s.Msgs = append(s.Msgs[:at:at], append([]proto.Message{m}, s.Msgs[at:]...)...)
 	}
@@ -370,6 +380,33 @@ func c10PatchMuts(s *c10Stream) []c10Mut {
 					continue
 				}
 				add("op.data", fmt.Sprintf("msg %d SyncOp.data=%dB", i, v), func(s *c10Stream) { s.Msgs[i].(*pwr.SyncOp).Data = make([]byte, v) })
+			}
+			// --- "spans ... huge" on an op that is APPLIED: a BLOCK_RANGE naming an existing old file.
+			// The span / index fields of DATA and end-marker ops are never read, and the budgeted
+			// draw above picks its op blindly; the size arithmetic of wsync.ApplySingleFull (and any
+			// loop bounded by a field value) only sees a huge span when it sits on a block range, and
+			// a different path when that range is the first op of its series (full-file test first) or
+			// a later one (relay loop).  Planned on every run for the first op of either kind.
+			if x.Type == pwr.SyncOp_BLOCK_RANGE && x.FileIndex >= 0 && x.FileIndex < nT && i > 0 {
+				_, firstOfSeries := s.Msgs[i-1].(*pwr.SyncHeader)
+				if (firstOfSeries && !hugeFirst) || (!firstOfSeries && !hugeLater) {
+					pos := "a later op"
+					if firstOfSeries {
+						hugeFirst, pos = true, "the first op"
+					} else {
+						hugeLater = true
+					}
+					for _, v := range []int64{1 << 40, c10Big46, c10Big62} {
+						v := v
+						alwaysLate("op.blockSpan-huge", fmt.Sprintf("msg %d BLOCK_RANGE (%s of its series, old file %d of %d bytes) blockSpan=%d", i, pos, x.FileIndex, s.TC.Files[x.FileIndex].Size, v),
+							func(s *c10Stream) { s.Msgs[i].(*pwr.SyncOp).BlockSpan = v })
+					}
+					for _, v := range []int64{c10Big46, c10Big47 - 1, c10Big62} {
+						v := v
+						alwaysLate("op.blockIndex-huge", fmt.Sprintf("msg %d BLOCK_RANGE (%s of its series, old file %d of %d bytes) blockIndex=%d", i, pos, x.FileIndex, s.TC.Files[x.FileIndex].Size, v),
+							func(s *c10Stream) { s.Msgs[i].(*pwr.SyncOp).BlockIndex = v })
+					}
+				}
 			}
 			if x.Type == pwr.SyncOp_DATA {
 				// swapped series kinds at field level: a DATA op with blockSpan=1 reads as Control{eof:true}
@@ -534,7 +571,9 @@ func c10PatchMuts(s *c10Stream) []c10Mut {
 
 func c10SigMuts(s *c10Stream) []c10Mut {
 	var out []c10Mut
-	add := func(class, desc string, f func(s *c10Stream)) { out = append(out, c10Mut{class, desc, f, false}) }
+	add := func(class, desc string, f func(s *c10Stream)) {
+		out = append(out, c10Mut{Class: class, Desc: desc, Apply: f})
+	}
 	n := len(s.Msgs)
 	for _, k := range []int{1, 2, 3, n / 2, n - 1, n} {
 		k := k
@@ -589,7 +628,9 @@ func c10SigMuts(s *c10Stream) []c10Mut {
 
 func c10OvlMuts(s *c10Stream, oldLen int64) []c10Mut {
 	var out []c10Mut
-	add := func(class, desc string, f func(s *c10Stream)) { out = append(out, c10Mut{class, desc, f, false}) }
+	add := func(class, desc string, f func(s *c10Stream)) {
+		out = append(out, c10Mut{Class: class, Desc: desc, Apply: f})
+	}
 	for i, m := range s.Msgs {
 		i := i
 		if x, ok := m.(*overlay.OverlayOp); ok {
@@ -675,6 +716,7 @@ type c10Plan struct {
 	WL       []int64
 	Job      *c10Job
 	Corpus   bool
+	NoModel  bool // judged by the oracle only (header mutations the reader must stop at: c10_hdr.go)
 	sc       *c10Scenario
 }
 
@@ -757,6 +799,16 @@ func c10N(c *Ctx, quick, thorough int) int {
 
 func c10Deep(c *Ctx) bool { return c.Tier == "thorough" }
 
+// c10LateRng: the k-th random stream of the classes added in later rounds (header frame, magic
+// number, huge spans on applied block ranges).  It derives from the run's seed like everything
+// else (a seed replays exactly) but not from c.Rng's sequence: the classes of the earlier rounds
+// keep the draws they had, so an input a given seed found before is still found after a class
+// was added.
+func c10LateRng(c *Ctx, k *uint64) *lib.Rng {
+	*k++
+	return lib.NewRng(c.Seed*1000003 + 0xC10<<20 + *k)
+}
+
 func runC10(c *Ctx) error {
 	r := c.Rng.Fork()
 	scs := c10FixedScenarios(r.Fork())
@@ -796,9 +848,11 @@ func runC10(c *Ctx) error {
 
 	// --- corpus: the inputs that failed on the unchanged tree, first ---
 	c10Corpus(scs, addPlan)
+	c10HdrCorpus(scs[0], addPlan)
 
 	// --- field-level mutations ---
 	perBase := c10N(c, 40, 180)
+	nLate := uint64(0)
 	for _, sc := range scs {
 		type baseT struct {
 			name string
@@ -814,6 +868,7 @@ func runC10(c *Ctx) error {
 		bases = append(bases, baseT{"ovl", sc.Ovl, c10OvlMuts(sc.Ovl, int64(sc.OvlOldLen))})
 		for _, b := range bases {
 			cr := r.Fork()
+			lr := c10LateRng(c, &nLate)
 			// the unmutated stream under every framing
 			for _, fr := range c10Framings {
 				if b.name == "ovl" && fr.Algo != pwr.CompressionAlgorithm_NONE {
@@ -842,13 +897,28 @@ func runC10(c *Ctx) error {
 				}
 				s := b.s.clone()
 				m.Apply(s)
-				fr := c10Framings[cr.Intn(len(c10Framings))]
+				ar := cr
+				if m.Late {
+					ar = lr
+				}
+				fr := c10Framings[ar.Intn(len(c10Framings))]
 				feeders := []string{c10FPatFresh}
-				if cr.Chance(1, 4) {
+				if ar.Chance(1, 4) {
 					feeders = append(feeders, c10FPatOverlay)
 				}
 				for _, fd := range feeders {
 					addPlan(&c10Plan{Scenario: sc.Name, Base: b.name, Class: m.Class, Desc: m.Desc, Framing: fr, Feeder: fd, Stream: s, TruncAt: -1, sc: sc})
+				}
+			}
+			// another magic number, field-level mutations of the header frame in front of the containers (c10_hdr.go)
+			c10MagicPlans(lr, sc, b.name, b.s, c10N(c, 3, 11), addPlan)
+			if b.name != "ovl" {
+				nSame := c10N(c, 3, 12)
+				if b.name == "opt" {
+					nSame = c10N(c, 2, 8) // (32 MiB LRU cache per applied bsdiff series, see below)
+				}
+				if err := c10HdrPlans(lr, sc, b.name, b.s, nSame, addPlan); err != nil {
+					return err
 				}
 			}
 			order := c10Shuffle(cr, len(budgeted))
@@ -884,7 +954,11 @@ func runC10(c *Ctx) error {
 					case "ovl":
 						m2s = c10OvlMuts(s, int64(sc.OvlOldLen))
 					default:
-						m2s = c10PatchMuts(s)
+						for _, m2 := range c10PatchMuts(s) {
+							if !m2.Late { // (the pool the second mutation is drawn from stays what it was)
+								m2s = append(m2s, m2)
+							}
+						}
 					}
 					if len(m2s) > 0 {
 						m2 := m2s[cr.Intn(len(m2s))]
